@@ -19,4 +19,6 @@ func init() {
 	bindProp("C19", "H1")
 	bindProp("C20", "H1")
 	bindProp("C18", "H4")
+	bindProp("C14", "H6")
+	bindProp("C15", "H6")
 }
